@@ -152,3 +152,67 @@ pub async fn op_update_preserves(sc: Value) -> Value {
     dev.truncate(12);
     json!({"cases": cases, "deviations": dev, "classes": classes})
 }
+
+/// C10 replay of an editing-program counterexample: {"program": [["add", id], ["remove", id], ["clear"]], "listed_before": [ids]}
+/// names are "name-<id>"; the source repository lists the names in listed_before; the program runs on RepositoryEditor::from_repo
+pub async fn op_editor_program(sc: Value) -> Value {
+    let listed: Vec<u64> = sc["listed_before"].as_array().map(|a| a.iter().filter_map(|v| v.as_u64()).collect()).unwrap_or_default();
+    let mut top = role("targets", None, None);
+    for id in &listed {
+        top.targets.push(tgt(&format!("name-{id}"), format!("old content {id}").as_bytes()));
+    }
+    let spec = RepoSpec { consistent: false, roles: vec![top], snapshot_extra: vec![], timestamp_extra: vec![], root_version: 1, snapshot_version: 1, timestamp_version: 1 };
+    let built = build_repo(&spec).await;
+    let src = tempfile::tempdir().unwrap();
+    built.write_to(src.path());
+    let md = src.path().join("metadata");
+    let repo = RepositoryLoader::new(&built.root, dir_url(&md), dir_url(&src.path().join("targets"))).load().await.unwrap();
+    let mut ed = RepositoryEditor::from_repo(src.path().join("root.json"), repo).await.unwrap();
+    ed.targets_version(nz(2)).unwrap().targets_expires(far()).unwrap();
+    ed.snapshot_version(nz(2)).snapshot_expires(far());
+    ed.timestamp_version(nz(2)).timestamp_expires(far());
+    let mut want: std::collections::BTreeMap<String, u64> = listed.iter().map(|id| (format!("name-{id}"), format!("old content {id}").len() as u64)).collect();
+    let mut log = vec![];
+    for (i, op) in sc["program"].as_array().cloned().unwrap_or_default().iter().enumerate() {
+        let kind = op[0].as_str().unwrap_or("");
+        let name = format!("name-{}", op[1].as_u64().unwrap_or(0));
+        match kind {
+            "add" => {
+                let c = format!("new content {i} of {name} ............").into_bytes();
+                let t = Target { length: c.len() as u64, hashes: Hashes { sha256: sha(&c).into(), _extra: HashMap::new() }, custom: HashMap::new(), _extra: HashMap::new() };
+                ed.add_target(TargetName::new(&name).unwrap(), t).unwrap();
+                want.insert(name.clone(), c.len() as u64);
+                log.push(format!("add {name}"));
+            }
+            "remove" => {
+                ed.remove_target(&TargetName::new(&name).unwrap()).unwrap();
+                want.remove(&name);
+                log.push(format!("remove {name}"));
+            }
+            "clear" => {
+                ed.clear_targets().unwrap();
+                want.clear();
+                log.push("clear".into());
+            }
+            _ => {}
+        }
+    }
+    let signed = match ed.sign(&built.all_keys()).await {
+        Ok(s) => s,
+        Err(e) => return json!({"error": format!("sign failed: {e}"), "log": log}),
+    };
+    let out = tempfile::tempdir().unwrap();
+    let omd = out.path().join("metadata");
+    signed.write(&omd).await.unwrap();
+    std::fs::write(omd.join("1.root.json"), &built.root).unwrap();
+    let repo2 = match RepositoryLoader::new(&built.root, dir_url(&omd), dir_url(&src.path().join("targets"))).load().await {
+        Ok(r) => r,
+        Err(e) => return json!({"error": format!("result does not load: {e}"), "log": log}),
+    };
+    let got: std::collections::BTreeMap<String, u64> = repo2.targets().signed.targets.iter().map(|(n, t)| (n.raw().to_string(), t.length)).collect();
+    let mut violations = vec![];
+    if got != want {
+        violations.push(format!("after [{}] on a repository listing {:?}, the client sees targets {:?} (name -> length), the program leaves {:?}", log.join(", "), listed.iter().map(|i| format!("name-{i}")).collect::<Vec<_>>(), got, want));
+    }
+    json!({"log": log, "violations": violations})
+}
